@@ -57,8 +57,19 @@ def gen_case(rng, tier, op=None):
                 b = rng.randint(-n - 1, n) if op == "slice" else max(-n - 1, min(n, a + step * rng.randint(0, 3)))
                 case["range"] = [a, b, step]
                 case["rows"] = list(range(a, b, step))
+            if op == "slice" and rng.random() < 0.12:
+                # a position that does not exist (>= nrow or < -nrow): nothing to return for it — the call must refuse it
+                case["rows"] = list(case["rows"][:2]) + [rng.choice([n, n + 3, -n - 1, -n - 4])]
+                case["rows_as"] = rng.choice(["list", "array", "vector"])
+                case["oob"] = True
     elif op in ("head", "tail"):
         case["n"] = rng.randint(0, n + 2)
+        if rng.random() < 0.3:
+            # n omitted: the frame default `dataiter.DEFAULT_PEEK_ROWS` as set at the time of the call decides — not the
+            # default for vectors, which is set to something else here
+            case["default_rows"] = case["n"]
+            case["default_elements"] = case["n"] + 3
+            case["n_omitted"] = True
     elif op == "drop_na":
         case["cols"] = rng.sample(names, rng.randint(0, len(names)))
     elif op == "sample":
@@ -124,7 +135,7 @@ def impl(case):
     res = {}
     try:
         if op == "filter_mask":
-            out = df.filter(np.array(case["mask"], dtype=bool))
+            out = df.filter(mask_as(case))
         elif op in ("filter_callable", "filter_out_callable"):
             # the callable form: a condition on the frame it is handed, by position in THAT frame (not row-local:
             # evaluated on anything but the whole receiver it selects other rows).  On objects with a history
@@ -137,7 +148,7 @@ def impl(case):
             out = df.filter(fn) if op == "filter_callable" else df.filter_out(fn)
             df._group_colnames = ()
         elif op == "filter_out_mask":
-            out = df.filter_out(np.array(case["mask"], dtype=bool))
+            out = df.filter_out(mask_as(case))
         elif op in ("filter_kv", "filter_out_kv"):
             kv = {}
             for nm, v in case["conds"]:
@@ -150,6 +161,9 @@ def impl(case):
             arg = (tuple(rows) if how == "tuple" else np.array(rows, dtype=np.int64) if how == "array" else
                    np.array(rows, dtype=np.int64).view(di.Vector) if how == "vector" else range(*case["range"]) if how == "range" else list(rows))
             out = df.slice(rows=arg) if op == "slice" else df.slice_off(rows=arg)
+        elif op in ("head", "tail") and case.get("n_omitted"):
+            with patch("dataiter.DEFAULT_PEEK_ROWS", case["default_rows"]), patch("dataiter.DEFAULT_PEEK_ELEMENTS", case["default_elements"]):
+                out = df.head() if op == "head" else df.tail()
         elif op == "head":
             out = df.head(case["n"])
         elif op == "tail":
@@ -270,6 +284,25 @@ def expected(case, obs):
         return keep
 
 
+def mask_as(case):
+    """the boolean mask in the form a caller may hold it (a function of the case alone): a bool ndarray, an OBJECT ndarray of
+    Python bools (what a list comprehension over rows put into np.array(..., object), or a pandas column with missing values
+    dropped, gives), a plain list, a Vector"""
+    import dataiter as di
+    m = case["mask"]
+    how = (len(m) + sum(m)) % 4
+    if how == 1:
+        a = np.empty(len(m), dtype=object)
+        for i, x in enumerate(m):
+            a[i] = bool(x)
+        return a
+    if how == 2:
+        return [bool(x) for x in m]
+    if how == 3:
+        return np.array(m, dtype=bool).view(di.Vector)
+    return np.array(m, dtype=bool)
+
+
 def judge(ctx, case, obs, mouts):
     spec, op = case["frame"], case["op"]
     n = spec["n"]
@@ -278,6 +311,12 @@ def judge(ctx, case, obs, mouts):
     rids = obs.get("rids")
     nontrivial = n >= 2 and rids is not None and 0 < len(rids) < n
     base = op.replace("_mask", "").replace("_callable", "").replace("_kv", "")
+    if case.get("oob"):
+        ctx.count("slice:position-out-of-range")
+        if "err" not in obs:
+            ctx.violation("oracle", "slice:out-of-range-accepted", f"slice({case['rows']}) on {n} rows returned rows {rids} for a position that does not exist", case, obs)
+        ctx.case_done(case, True)
+        return
     if "err" in obs:
         ctx.violation("oracle", f"{base}:raises:rows{min(n, 2)}", f"DataFrame.{base} raised: {obs['err']}", case, obs)
     else:
